@@ -118,7 +118,8 @@ func (cred *etcdCredentials) Password() string {
 }
 
 func parseCredentials(creds string) (string, string, error) {
-	parts := strings.Split(creds, ":")
+	// the password may contain colons (RFC 7617): split at the first one only
+	parts := strings.SplitN(creds, ":", 2)
 	if len(parts) < 2 {
 		return "", "", fmt.Errorf("bad format")
 	}
